@@ -54,6 +54,22 @@ def _replay_case(ctx, dutils, c, offset, scale):
                     break
     if not (np.array_equal(xs, xs0, equal_nan=True) and np.array_equal(ix, ix0)):
         ctx.violation("aggregate:argument-modified", "inputs changed by the call", case)
+    # a value of very different magnitude in the first group (2^56 next to units): the other groups are functions of their own inputs only
+    if not c["err"] and e is None and len(c["agg"]) >= 2 and len(xs0) and np.isfinite(xs0[0]):
+        big = np.array(xs0, dtype=np.float64)
+        big[0] += 2.0 ** 56 * scale
+        out2, e2 = _call(dutils.aggregate, np.array(ix0), big, c["op"], c["maxnan"])
+        if e2 is not None:
+            ctx.violation("aggregate:spurious-error", str(e2), dict(case, first_value_plus=2.0 ** 56 * scale))
+        else:
+            for k, exp in enumerate(c["agg"]):
+                if k == 0 or exp == FREE:
+                    continue
+                if not rat_close(out2[k] / scale, exp):
+                    ctx.violation("aggregate:op%d:group-independence" % c["op"],
+                                  "group %d: %r when the FIRST group contains a value of magnitude 2^56, expected %s/%s as before" %
+                                  (k, out2[k] / scale, exp[0], exp[1]), dict(case, got=[float(v) for v in out2]))
+                    break
     # flathomogen
     out, e = _call(dutils.flathomogen, ix, xs, c["maxnan"])
     if c["err"]:
